@@ -211,7 +211,7 @@ impl Prop for C12 {
         "histories write*;end over soup/structured inputs (incl. empty writes and empty documents) with observers and mutating scripts (incl. empty strings in every insertion API), failures injected at handler invocation indices and by small memory limits, graceful flags on/off, meta-charset switching on/off; every history is run through the sink automaton (set_encoding first; zero-length chunk exactly once as the last call of a successful end(); nothing after an error; use-after-error panics) and, without graceful flags, the emitted bytes are compared with the complete run's output (prefix); non-trivial: >= 2 writes and (a failure, a document-end append or an encoding switch); distinct = hash(input, schedule, config)".into()
     }
     fn run_shard(&self, ctx: &mut Ctx<'_>) {
-        let n = ctx.budget(2_000_000, 40_000_000);
+        let n = ctx.budget(2_000_000, 80_000_000);
         for i in 0..n {
             if i % 32 == 0 && ctx.should_stop() {
                 break;
